@@ -69,10 +69,13 @@ class C01(framework.PropertyCheck):
                    'dump': [['time', 0]] + [['vector', '101', i] for i in ids] + [['time', 7]] + [['vector', '010', i] for i in ids]}
             steps = [('loadvcd', 'zz', gen_trace.render(aux, random.Random(case['history']))), steps[0], ('unload', 'zz'), steps[1]]
         names = den['signals']
+        # every signal is read directly and, from the index before, through a relative read that lands on this index
         q = '(list INDEX TS ' + ' '.join(f'(get {qs(n)})' for n in names) + ')'
+        qrel = '(list ' + ' '.join(f'(reval (get {qs(n)}) 1)' for n in names[:6]) + ')'
         steps.append(('eval', 'eorg', '(list ' + ' '.join(f'(signal-width {qs(n)})' for n in names) + ')'))
         for _i in range(len(den['timestamps'])):
             steps.append(('eval', 'eorg', q))
+            steps.append(('eval', 'eorg', qrel))
             steps.append(('eval', 'eorg', '(step)'))
         return steps
 
@@ -105,6 +108,11 @@ class C01(framework.PropertyCheck):
                             bad = {'position': j, 'signal': (['INDEX', 'TS'] + names)[j], 'got': a, 'want': b, 'id': den['ids'].get((['', ''] + names)[j])}
                             break
                 return {'what': 'value at index differs from the file', 'index': i, 'first_difference': bad, 'got': got if not bad else None}
+            k += 1
+            wantrel = ('L', True, tuple(_v(den['values'][s][i + 1]) for s in names[:6])) if i + 1 < n else ('L', True, tuple(('B', False) for _s in names[:6]))
+            if k >= len(iobs) or iobs[k][0] != 'ok' or iobs[k][1] != wantrel:
+                return {'what': 'a relative read (offset 1) does not report the value the file gives for the next index', 'index': i,
+                        'got': iobs[k] if k < len(iobs) else None, 'want': wantrel}
             k += 1
             want_step = ('B', i + 1 < n)
             if k >= len(iobs) or iobs[k][0] != 'ok' or iobs[k][1] != want_step:
